@@ -84,6 +84,8 @@ def impl(case):
     except Exception as e:  # noqa: BLE001
         out["compile"] = ["err", exc_name(e)]
         return out
+    from .evalbase import used_before
+    used_before(c, doc)
     try:
         ms = list(c.finditer(doc))
         out["matches"] = show_matches(ms)
